@@ -198,34 +198,32 @@ Print Assumptions C05_second_value_refused_any_call.
 
 (* ------------------------------------------------------------------ the statement of C05 itself, at world level
    "After any sequence of record construction and attribute additions, every PROV formal attribute of a record holds at
-   most one value, reference-valued ones hold qualified names and time-valued ones hold datetimes."  A history may hold
-   every call of the quantifier — new_record, the typed factories and element methods, add_attributes (pair lists; the
-   harness turns dictionaries into them), set_time, add_asserted_type — in any order, with namespace calls, new bundles,
-   every reading and exporting call, and the deriving calls that re-create records one at a time (add_record, update of
-   a bundle, flattened, a document from records, add_bundle of a document, the graph round trip) in between; not carried:
-   unified(), update() between two documents, deserialisation (`carried`).  The members of a collection (prov:entity of
-   a membership, the compatibility path the property does not claim) may be several; each is a qualified name. *)
-Theorem C05_reachable_single_valued : forall ft ops r p,
-  forallb carried ops = true -> get_rec (wrun ft ops) r = Some p -> NormalE p.
+   most one value, reference-valued ones hold qualified names and time-valued ones hold datetimes."  The history may hold
+   any call of the interpreter: those of the quantifier — new_record, the typed factories and element methods,
+   add_attributes (pair lists; the harness turns dictionaries into them), set_time, add_asserted_type — and every other
+   one (namespace calls, bundles, reading and exporting calls, add_record, update, flattened, unified, a document from
+   records, add_bundle of a document, the graph round trip, PROV-JSON deserialisation).  The members of a collection
+   (prov:entity of a membership, the compatibility path the property does not claim) may be several; each is a
+   qualified name. *)
+Theorem C05_reachable_single_valued : forall ft ops r p, get_rec (wrun ft ops) r = Some p -> NormalE p.
 Proof. exact reachable_record_single_valued. Qed.
 Print Assumptions C05_reachable_single_valued.
 
 Theorem C05_reachable_at_most_one_value : forall ft ops r p a,
-  forallb carried ops = true -> get_rec (wrun ft ops) r = Some p ->
+  get_rec (wrun ft ops) r = Some p ->
   is_formal_attr a = true -> is_prov_name "entity" a = false -> length (attr_get a (rattrs p)) <= 1.
 Proof.
-  intros ft ops r p a C G F E. eapply NormalE_formal_single; [eapply reachable_record_single_valued; eassumption | exact F | exact E].
+  intros ft ops r p a G F E. eapply NormalE_formal_single; [eapply reachable_record_single_valued; eassumption | exact F | exact E].
 Qed.
 Print Assumptions C05_reachable_at_most_one_value.
 
-(* non-vacuity: a history with a membership factory naming two members, a generation built by new_record and then
-   given its time by add_attributes, an activity with set_time; the generation's prov:time holds one value *)
+(* non-vacuity: a generation built by new_record, given its time by add_attributes, then offered another time (refused):
+   prov:time holds one value *)
 Example C05_reachable_applies :
   let ops := [ONewDoc; OAddNs (CDoc 0) "ex" "http://e/";
               ONewRecord (CDoc 0) "Generation" (Some (NStr "ex:g")) [(NQn (prov_qn "entity"), WA (AStr "ex:e"))];
               OAddAttrs (RRef (CDoc 0) 0) [(NQn (prov_qn "time"), WA (AStr "2012-03-31T09:21:00"))];
               OAddAttrs (RRef (CDoc 0) 0) [(NQn (prov_qn "time"), WA (AStr "2012-03-31T09:22:00"))]] in
-  forallb carried ops = true /\
   option_map (fun p => map (fun kv => (qn_local (fst kv), length (snd kv))) (rattrs p)) (get_rec (wrun [] ops) (RRef (CDoc 0) 0))
   = Some [("entity", 1); ("time", 1)].
-Proof. split; vm_compute; reflexivity. Qed.
+Proof. vm_compute. reflexivity. Qed.
